@@ -135,6 +135,14 @@ def run(ctx):
     layer_globals_in_abandoned_elements(ctx, 25 if ctx.quick else 400)
 
 
+class Positioned(Exception):
+    lineno = 40
+    offset = 41
+    pos = 42
+    line = 43
+    column = 44
+
+
 def layer_error_variable(ctx, n):
     """The fallback expression can read error.type / value / lineno / offset of the failure."""
     from chameleon import PageTemplate
@@ -150,7 +158,10 @@ def layer_error_variable(ctx, n):
         # any Exception subclass is handled, whatever special treatment it gets elsewhere (RecursionError passes
         # render() unwrapped, StopIteration ends iterations, MemoryError ...)
         exc = rng.choice(['ZeroDivisionError', 'KeyError', 'CustomError', 'ValueError', 'RecursionError', 'StopIteration', 'MemoryError',
-                          'AssertionError', 'OSError', 'NotImplementedError', 'ImportError', 'EOFError', 'UnboundLocalError', 'StopAsyncIteration'])
+                          'AssertionError', 'OSError', 'NotImplementedError', 'ImportError', 'EOFError', 'UnboundLocalError', 'StopAsyncIteration',
+                          # exceptions that carry a line and an offset of their own (of some other text): error.lineno / offset
+                          # are the failing expression's place in the template all the same
+                          'SyntaxError', 'JSONDecodeError', 'Positioned', 'SyntaxError', 'Positioned'])
         src = lead + '<div class="k" tal:on-error="string:T=${error.type.__name__};V=${type(error.value).__name__};L=${error.lineno};O=${error.offset}">before %s after</div>!' % site
         off = src.index('f(1)')
         line = src.count('\n', 0, off) + 1
@@ -158,6 +169,13 @@ def layer_error_variable(ctx, n):
         calls = []
 
         def f(i, exc=exc):
+            if exc == 'SyntaxError':
+                raise SyntaxError('bad', ('other.py', 30, 17, 'x ='))
+            if exc == 'JSONDecodeError':
+                import json
+                json.loads('{\n\n\n "a": }')
+            if exc == 'Positioned':
+                raise Positioned('p')
             raise tmodel.make_exc(exc, i)
         try:
             out = PageTemplate(src, on_error_handler=calls.append)(f=f, g=lambda i: 'g')
